@@ -68,7 +68,7 @@ func TestC15(t *testing.T) {
 	defer os.RemoveAll(dir)
 	p := &parent{r: r, latent: map[string]*latentInfo{}, dir: dir}
 
-	nGov := r.N(500, 22000)
+	nGov := r.N(600, 22000)
 	nGen := r.N(800, 40000)
 	blocks := r.N(12, 14)
 	workers := r.N(8, 12)
